@@ -205,6 +205,25 @@ type harnessPeer struct {
 	conn net.Conn
 	mu   sync.Mutex
 	rx   []*floodsub.Packet
+	// paused, if non-nil, makes the reader stop taking packets off the stream until it is closed (back-pressure)
+	paused chan struct{}
+}
+
+// pauseFor stops the peer from reading its stream for d.
+func (h *harnessPeer) pauseFor(d time.Duration) {
+	g := make(chan struct{})
+	h.mu.Lock()
+	h.paused = g
+	h.mu.Unlock()
+	go func() {
+		time.Sleep(d)
+		h.mu.Lock()
+		if h.paused == g {
+			h.paused = nil
+		}
+		h.mu.Unlock()
+		close(g)
+	}()
 }
 
 // attachHarnessPeer attaches a scripted peer with identity key to node n.
@@ -216,6 +235,12 @@ func attachHarnessPeer(n *node, key int, linkID uint64) *harnessPeer {
 	h := &harnessPeer{key: key, conn: c2, sess: stream_packet.NewSession(c2, 2000000)}
 	go func() {
 		for {
+			h.mu.Lock()
+			g := h.paused
+			h.mu.Unlock()
+			if g != nil {
+				<-g
+			}
 			pkt := &floodsub.Packet{}
 			if err := h.sess.RecvMsg(pkt); err != nil {
 				return
